@@ -291,7 +291,12 @@ class Recorder:
                     info = self.make_info(dict(oldsp, name=info.name))
                 except Exception:  # noqa: BLE001
                     pass
-            task = await aio.async_unregister_service(info)
+            try:
+                task = await aio.async_unregister_service(info)
+            except Exception as ex:  # noqa: BLE001
+                # unregistering a registered service does not raise: whatever escapes here is an exception the application gets
+                self.ev('exc', what='unregister:' + type(ex).__name__, msg=str(ex)[:100])
+                return
             self.pending_tasks.append(task)
             self.ev('api_ret', op='unreg', sid=st['sid'], ok=True)
         elif op == 'unreg_all':
